@@ -60,6 +60,8 @@ type sharedT struct {
 	xsk   []byte
 	xpriv x25519.PrivateKey // deliberately NOT clamped: read-only methods must not normalise it in place
 	xpeer x25519.PublicKey
+	us    *scalar.Scalar // an UNREDUCED scalar (value >= L): read-only methods must not normalise it in place
+	spk   *sr25519.PublicKey
 }
 
 // workSafe: a library call that misbehaves under concurrency may hand the workload something it cannot digest (a nil
@@ -245,6 +247,34 @@ func work(id int, shared *sharedT, rounds int) string {
 		p.ExpandedMultiscalarMulVartime([]*scalar.Scalar{s}, []*curve.ExpandedEdwardsPoint{shared.eP}, []*scalar.Scalar{s}, []*curve.EdwardsPoint{shared.P})
 		b, _ := p.MarshalBinary()
 		fmt.Fprintf(&out, "%x %v %v ", b[:4], shared.P.IsTorsionFree(), shared.P.IsSmallOrder())
+		{
+			// read-only methods on values every goroutine shares (a projective point with Z != 1, an unreduced scalar, a
+			// decoded public key): encoding, comparing, testing or recoding a value must not write to it, not even
+			// transiently ("normalise in place", "cache the affine form")
+			pb, _ := shared.P.MarshalBinary()
+			var cy curve.CompressedEdwardsY
+			cy.SetEdwardsPoint(shared.P)
+			var mu curve.MontgomeryPoint
+			mu.SetEdwards(shared.P)
+			var q curve.EdwardsPoint
+			q.Add(shared.P, shared.P)
+			qb, _ := q.MarshalBinary()
+			rb0, _ := shared.R.MarshalBinary()
+			var cr curve.CompressedRistretto
+			cr.SetRistrettoPoint(shared.R)
+			fmt.Fprintf(&out, "%x%x%x%x%x%x %v%v%v ", pb[:4], cy[:4], mu[:4], qb[:4], rb0[:4], cr[:4], shared.P.Equal(&p), shared.P.IsIdentity(), shared.R.Equal(shared.R))
+			us := shared.us
+			ub, _ := us.MarshalBinary()
+			var tb [32]byte
+			_ = us.ToBytes(tb[:])
+			bits, r16, naf, r2w := us.Bits(), us.ToRadix16(), us.NonAdjacentForm(5), us.ToRadix2w(8)
+			var red scalar.Scalar
+			red.Reduce(us)
+			redb, _ := red.MarshalBinary()
+			fmt.Fprintf(&out, "%v %x%x %d%d %d%d%d %x %v ", us.IsCanonical(), ub[28:], tb[28:], bits[255], bits[252], r16[63], naf[255], r2w[42], redb[:4], us.Equal(&red))
+			spb, _ := shared.spk.MarshalBinary()
+			fmt.Fprintf(&out, "%x %v ", spb[:4], shared.spk.Verify(shared.ctx.NewTranscriptBytes([]byte("shared")), shared.ssig))
+		}
 		var r curve.RistrettoPoint
 		r.Mul(shared.R, s)
 		r.MulBasepoint(shared.rtbl, s)
@@ -336,6 +366,9 @@ var fresh struct {
 	eP   *curve.ExpandedEdwardsPoint
 	kp   *sr25519.KeyPair
 	sctx *sr25519.SigningContext
+	spk  *sr25519.PublicKey // freshly decoded, never used: its first Verify is concurrent
+	ssig *sr25519.Signature
+	P    *curve.EdwardsPoint // a fresh projective point (Z != 1): its first encoding is concurrent
 }
 
 // nilRandDefaults calls every entry point whose entropy source defaults to crypto/rand when nil is passed (T12): the
@@ -521,6 +554,16 @@ func coldStart(n int) []string {
 			sg, _ := fresh.kp.Sign(zr{}, fresh.sctx.NewTranscriptBytes(msg))
 			fmt.Fprintf(&outs[id], "%v ", fresh.kp.PublicKey().Verify(fresh.sctx.NewTranscriptBytes(msg), sg))
 		},
+		func(id int) {
+			fmt.Fprintf(&outs[id], "%v ", fresh.spk.Verify(fresh.sctx.NewTranscriptBytes(msg), fresh.ssig))
+		},
+		func(id int) {
+			b, _ := fresh.P.MarshalBinary()
+			var q curve.EdwardsPoint
+			q.Add(fresh.P, curve.ED25519_BASEPOINT_POINT)
+			qb, _ := q.MarshalBinary()
+			fmt.Fprintf(&outs[id], "%x%x ", b[:4], qb[:4])
+		},
 	}
 	{
 		sk := ed25519.NewKeyFromSeed(bytes.Repeat([]byte{7}, 32))
@@ -536,6 +579,18 @@ func coldStart(n int) []string {
 		msk[3] = 9
 		fresh.kp = msk.ExpandUniform().KeyPair()
 		fresh.sctx = sr25519.NewSigningContext([]byte("fresh"))
+		{
+			var msk2 sr25519.MiniSecretKey
+			msk2[5] = 11
+			kp2 := msk2.ExpandUniform().KeyPair()
+			fresh.ssig, _ = kp2.Sign(zr{}, fresh.sctx.NewTranscriptBytes(msg))
+			pkb, _ := kp2.PublicKey().MarshalBinary()
+			fresh.spk, _ = sr25519.NewPublicKeyFromBytes(pkb)
+			var fp curve.EdwardsPoint
+			fp.Add(curve.ED25519_BASEPOINT_POINT, curve.ED25519_BASEPOINT_POINT)
+			fp.Add(&fp, curve.ED25519_BASEPOINT_POINT)
+			fresh.P = &fp
+		}
 		for i := range fresh.o {
 			fresh.snap[i] = *fresh.o[i]
 		}
@@ -626,6 +681,11 @@ func main() {
 	sh.kp = msk.ExpandEd25519().KeyPair()
 	sh.ssig, _ = sh.kp.Sign(zr{}, sh.ctx.NewTranscriptBytes([]byte("shared")))
 	sh.tr = merlin.NewTranscript("shared")
+	sh.us, _ = scalar.NewFromBits(bytes.Repeat([]byte{0xff}, 32)) // 2^256-1: not reduced, bit 255 set
+	{
+		pkb, _ := sh.kp.PublicKey().MarshalBinary()
+		sh.spk, _ = sr25519.NewPublicKeyFromBytes(pkb)
+	}
 	sh.xsk = bytes.Repeat([]byte{0x42}, 32)
 	copy(sh.xpriv[:], bytes.Repeat([]byte{0xff}, 32))
 	copy(sh.xpeer[:], x25519.Basepoint)
@@ -644,6 +704,10 @@ func main() {
 		h.Write(b)
 		kb, _ := sh.kp.MarshalBinary()
 		h.Write(kb)
+		ub, _ := sh.us.MarshalBinary()
+		h.Write(ub)
+		spb, _ := sh.spk.MarshalBinary()
+		h.Write(spb)
 		return fmt.Sprintf("%x", h.Sum(nil))
 	}
 	inputsBefore := sharedInputs()
